@@ -122,6 +122,77 @@ async def _model(make, ops):
     return None
 
 
+def _strict(v):
+    """a value with its JSON types spelled out (1, 1.0 and True are equal in Python, not in JSON)"""
+    import json
+    return json.dumps(v, sort_keys=True)
+
+
+SWAPS = [(1, True), (True, 1), (1, 1.0), (1.0, 1), (0, False), ({"k": 1}, {"k": True}), ([1, 2], [True, 2])]
+
+
+async def _overwrite(make, path, v1, v2, via_edit):
+    """overwriting a value with an equal-but-different JSON value stores the new one"""
+    store = make()
+    await store.set(path, copy.deepcopy(v1))
+    if via_edit:
+        async with store.edit_state() as st:
+            if "." in path:
+                st[path.split(".")[0]][path.split(".")[1]] = copy.deepcopy(v2)
+            else:
+                st[path] = copy.deepcopy(v2)
+    else:
+        await store.set(path, copy.deepcopy(v2))
+    got = await store.get(path, default=None)
+    if _strict(got) != _strict(v2):
+        return f"set({path!r}, {v1!r}) then {'edit_state' if via_edit else 'set'} to {v2!r}: get returns {got!r}"
+    return None
+
+
+from pydantic import BaseModel as _BaseModel  # noqa: E402
+
+
+class C19Base(_BaseModel):
+    n: int = 0
+    name: str = "x"
+
+
+class C19Child(C19Base):
+    extra: int = 0
+
+
+def _typed_stores():
+    from workflows.context.state_store import InMemoryStateStore
+    from llama_agents.server._store.sqlite.sqlite_workflow_store import SqliteWorkflowStore
+
+    Base, Child = C19Base, C19Child  # module-level classes: the SQLite store re-imports a typed state by its name
+
+    def mem():
+        return InMemoryStateStore(Child())
+
+    def sqlite():
+        global _N
+        _N += 1
+        base = _BASE or tempfile.mkdtemp(prefix="verif_sq_")
+        return SqliteWorkflowStore(os.path.join(base, f"dbt{_N}.sqlite")).create_state_store("run-1", state_type=Child)
+
+    return Base, Child, {"memory/inherited": mem, "sqlite/inherited": sqlite}
+
+
+async def _merge(make, Base, Child, child_kw, base_kw):
+    """set_state with a parent-typed state overwrites exactly the parent's fields (defaults included) and keeps the
+    child's own fields - what updating a nested dict with the parent's dict does"""
+    store = make()
+    await store.set_state(Child(**child_kw))
+    await store.set_state(Base(**base_kw))
+    got = (await store.get_state()).model_dump()
+    want = dict(Child(**child_kw).model_dump())
+    want.update(Base(**base_kw).model_dump())
+    if got != want:
+        return f"set_state(Child({child_kw})) then set_state(Base({base_kw})): state {got!r}, the model says {want!r}"
+    return None
+
+
 def run(tier, seed, repo):
     global _BASE
     import shutil
@@ -170,7 +241,35 @@ def _run(tier, seed, repo):
                 r = f"after {ops!r}: raised {type(e).__name__}: {e}"
             if r:
                 fails["nested-dict-model"].append((kind, ops, r))
+    fails["strict-overwrite"] = []
+    for kind in ("memory/DictState", "sqlite/DictState"):
+        for path in ("a", "a.x"):
+            for v1, v2 in SWAPS:
+                for via_edit in (False, True):
+                    n += 1
+                    try:
+                        r = asyncio.run(_overwrite(stores[kind], path, v1, v2, via_edit))
+                    except Exception as e:  # noqa
+                        r = f"raised {type(e).__name__}: {e}"
+                    if r:
+                        fails["strict-overwrite"].append((kind, (path, v1, v2, via_edit), r))
+    fails["parent-type-merge"] = []
+    Base, Child, tstores = _typed_stores()
+    for kind, make in tstores.items():
+        for child_kw in ({}, {"n": 5, "name": "y", "extra": 7}, {"extra": 7}, {"n": 5}):
+            for base_kw in ({}, {"n": 3}, {"name": "z"}, {"n": 0, "name": "x"}, {"n": 3, "name": "z"}):
+                n += 1
+                try:
+                    r = asyncio.run(_merge(make, Base, Child, child_kw, base_kw))
+                except Exception as e:  # noqa
+                    r = f"raised {type(e).__name__}: {e}"
+                if r:
+                    fails["parent-type-merge"].append((kind, (child_kw, base_kw), r))
     what = {
+        "strict-overwrite": "overwriting a value with an equal-but-different JSON value (1 / true / 1.0, also nested) "
+                            "through set or edit_state stores the new value, in both stores",
+        "parent-type-merge": "set_state with a parent-typed state overwrites exactly the parent's fields, defaults "
+                             "included, and keeps the child's own fields, in both stores",
         "snapshot-isolation": "a state obtained from get_state is a snapshot: changing its top-level fields or keys does "
                               "not change the store until it is written back with set_state",
         "nested-dict-model": "get / set by dotted path (intermediate dicts created as needed) and clear return the same "
@@ -185,13 +284,23 @@ def _run(tier, seed, repo):
         if f:
             rp = os.path.join(os.environ.get("VERIF_OUT") or os.path.join(VERIF, "out"), "replay", f"C19-{key}.py")
             os.makedirs(os.path.dirname(rp), exist_ok=True)
-            fn = "_isolation" if key == "snapshot-isolation" else "_model"
-            args = f"{f[0][0]!r}, {f[0][1]!r}" if key == "snapshot-isolation" else f"{f[0][1]!r}"
+            fn = {"snapshot-isolation": "_isolation", "nested-dict-model": "_model", "strict-overwrite": "_overwrite",
+                  "parent-type-merge": "_merge"}[key]
+            if key == "snapshot-isolation":
+                args = f"{f[0][0]!r}, {f[0][1]!r}"
+            elif key == "nested-dict-model":
+                args = f"{f[0][1]!r}"
+            elif key == "strict-overwrite":
+                args = ", ".join(repr(x) for x in f[0][1])
+            else:
+                args = f"Base, Child, {f[0][1][0]!r}, {f[0][1][1]!r}"
+            getmake = (f"Base, Child, ts = C19._typed_stores()\nmake = ts[{f[0][0]!r}]\n" if key == "parent-type-merge"
+                       else f"make = C19._stores()[{f[0][0]!r}]\n")
             with open(rp, "w") as fh:
                 fh.write("#!/usr/bin/env python3\n# replay of a C19 contract violation (generated)\n"
                          f"import asyncio, os, sys\nsys.path.insert(0, {VERIF!r})\nos.environ.setdefault('VERIF_REPO', {repo!r})\n"
                          "from pyvc import native\nnative.setup_paths()\nfrom propchecks import C19\n"
-                         f"make = C19._stores()[{f[0][0]!r}]\n"
+                         + getmake +
                          f"r = asyncio.run(C19.{fn}(make, {args}))\n"
                          f"print('store:', {f[0][0]!r}, 'case:', {f[0][1]!r})\nprint('VIOLATED:' if r else 'holds', r or '')\n"
                          "sys.exit(1 if r else 0)\n")
@@ -206,7 +315,9 @@ def _run(tier, seed, repo):
                         f"{PATHS[:3]!r} x {VALUES!r} on three store configurations; the nested-dict model on every "
                         f"operation sequence of length <= {length} over set(path in {PATHS!r}, value in {VALUES!r}) and "
                         "clear (sampled 1 in 3 in the quick tier, 1 in 7 of those for SQLite); list indices in paths, "
-                        "typed models with nested models, parent-type merges of set_state and edit_state are outside "
-                        f"the bound ({n} scenarios)"],
-        "coverage_extra": {"bounded_not_proved": ["both C19 obligations: enumeration bound (see assumptions)"]},
+                        "typed models with nested models and longer edit_state blocks are outside the bound; plus every "
+                        "swap of equal-but-different JSON values of a fixed list at two paths through set and "
+                        "edit_state, and parent-type merges of one inherited model over 4 x 5 field settings, on both "
+                        f"stores ({n} scenarios)"],
+        "coverage_extra": {"bounded_not_proved": ["all C19 obligations: enumeration bound (see assumptions)"]},
     }
